@@ -71,6 +71,7 @@ func (p c09Pod) request() c09Res {
 type c09App struct {
 	Name  string
 	Prio  extension.PriorityClass
+	QoS   extension.QoSClass // qos field of the entry; may disagree with Prio (the statement goes by the priority)
 	Usage c09Res
 }
 
@@ -282,7 +283,7 @@ func (in *c09Input) build() (*configuration.ColocationStrategy, *corev1.Node, *c
 		nm.Status.NodeMetric = info
 		for _, h := range in.HostApps {
 			nm.Status.HostApplicationMetric = append(nm.Status.HostApplicationMetric, &slov1alpha1.HostApplicationMetricInfo{Name: h.Name,
-				Usage: slov1alpha1.ResourceMap{ResourceList: c09RL(h.Usage)}, Priority: h.Prio})
+				Usage: slov1alpha1.ResourceMap{ResourceList: c09RL(h.Usage)}, Priority: h.Prio, QoS: h.QoS})
 		}
 		if in.ReclaimableSet {
 			rl := c09RL(in.Reclaimable)
@@ -451,7 +452,7 @@ func c09Gen(r *kit.Rand) *c09Input {
 		for i, k := 0, []int{r.Range(1, 2), r.Range(3, 4)}[r.Weighted(85, 15)]; i < k; i++ {
 			in.HostApps = append(in.HostApps, c09App{Name: fmt.Sprintf("app-%d", i),
 				Prio:  []extension.PriorityClass{extension.PriorityProd, extension.PriorityMid, extension.PriorityBatch, extension.PriorityFree, extension.PriorityNone}[r.Weighted(48, 20, 24, 5, 3)],
-				Usage: pair(0, 150)})
+				Usage: pair(0, 150), QoS: kit.Pick(r, []extension.QoSClass{extension.QoSNone, extension.QoSNone, extension.QoSLS, extension.QoSBE, extension.QoSBE, extension.QoSLSR})})
 		}
 	}
 	in.Sys = pair(0, 250)
@@ -527,6 +528,11 @@ func TestVerifC09Mid(t *testing.T) {
 				return
 			}
 			c.Count("mid_fresh_numbers", 1)
+			for _, h := range in.HostApps {
+				if h.Prio == extension.PriorityProd && h.QoS == extension.QoSBE {
+					c.Count("dim_mid_hostapp_prod_with_be_qos", 1)
+				}
+			}
 			c09Check(c, in, out, "base")
 			cls := func(res int) string {
 				thr, mode := c09Upper(in, res)
